@@ -254,19 +254,20 @@ structure Frame (s s' : S) : Prop where
   delivered : s'.delivered = s.delivered
   lost : s.lost = true → s'.lost = true
   low : s.low ≤ s'.low
+  recheck : s'.recheck = s.recheck
 
-theorem Frame.refl (s : S) : Frame s s := ⟨rfl, rfl, rfl, rfl, rfl, rfl, rfl, rfl, rfl, id, Nat.le_refl _⟩
+theorem Frame.refl (s : S) : Frame s s := ⟨rfl, rfl, rfl, rfl, rfl, rfl, rfl, rfl, rfl, id, Nat.le_refl _, rfl⟩
 
 theorem Frame.trans {a b c : S} (h1 : Frame a b) (h2 : Frame b c) : Frame a c :=
   ⟨h2.fed.trans h1.fed, h2.total.trans h1.total, h2.eof.trans h1.eof, h2.exc.trans h1.exc,
    h2.lowChunks.trans h1.lowChunks, h2.highChunks.trans h1.highChunks, h2.connected.trans h1.connected,
    h2.bounds.trans h1.bounds, h2.delivered.trans h1.delivered, fun h => h2.lost (h1.lost h),
-   Nat.le_trans h1.low h2.low⟩
+   Nat.le_trans h1.low h2.low, h2.recheck.trans h1.recheck⟩
 
 theorem frame_maybeResume (s : S) : Frame s (maybeResume s) := by
   unfold maybeResume resumeReading
   split
-  · split <;> exact ⟨rfl, rfl, rfl, rfl, rfl, rfl, rfl, rfl, rfl, id, Nat.le_refl _⟩
+  · split <;> exact ⟨rfl, rfl, rfl, rfl, rfl, rfl, rfl, rfl, rfl, id, Nat.le_refl _, rfl⟩
   · exact Frame.refl s
 
 theorem frame_rnc (s : S) (n : Option Nat) : Frame s (rnc s n).1 := by
@@ -275,7 +276,7 @@ theorem frame_rnc (s : S) (n : Option Nat) : Frame s (rnc s n).1 := by
   · exact Frame.refl s
   · rename_i b t _
     exact Frame.trans (b := rncUpd s (rncSel b t s.off n).1 (rncSel b t s.off n).2.1 (rncSel b t s.off n).2.2)
-      ⟨rfl, rfl, rfl, rfl, rfl, rfl, rfl, rfl, rfl, id, Nat.le_refl _⟩ (frame_maybeResume _)
+      ⟨rfl, rfl, rfl, rfl, rfl, rfl, rfl, rfl, rfl, id, Nat.le_refl _, rfl⟩ (frame_maybeResume _)
 
 theorem rest_maybeResume (s : S) : rest (maybeResume s) = rest s := by
   unfold maybeResume resumeReading
@@ -324,7 +325,8 @@ theorem rnc_spec {s : S} (hi : Inv s) (hne : s.bufs ≠ []) (n : Option Nat) :
 inductive Move : S → S → Bytes → Prop
   | rnc (s : S) (n : Option Nat) (h : s.bufs ≠ []) : Move s (rnc s n).1 (rnc s n).2
   | setChunk (s : S) (n : Nat) : Move s (setChunk s n) []
-  | park (s : S) (p : Pend) (hw : s.waiter = false) (hb : s.bufs = []) :
+  | park (s : S) (p : Pend) (hw : s.waiter = false) (hb : s.bufs = [])
+      (hx : s.recheck = true → s.exc = none) :
       Move s { s with waiter := true, fut := .pending, parked := some p } []
   | lose (s : S) (b : Bool) : Move s { s with lost := s.lost || b } []
   | setSplits (s : S) (l l' : List Nat) (h : s.splits = some l) (hs : l'.Sublist l) :
@@ -362,7 +364,7 @@ theorem move_inv {s s' : S} {d : Bytes} (hi : Inv s) (m : Move s s' d) : Inv s' 
   cases m with
   | rnc n h => exact (rnc_spec hi h n).1
   | setChunk n => exact setChunk_inv hi n
-  | park p hw hb =>
+  | park p hw hb hx =>
     exact { hi with
       waiter_parked := by intro _; exact ⟨rfl, rfl⟩
       waiter_empty := by intro _; exact hb
@@ -391,12 +393,12 @@ theorem move_frame {s s' : S} {d : Bytes} (m : Move s s' d) : Frame s s' := by
   | rnc n h => exact frame_rnc s n
   | setChunk n =>
     unfold setChunk; split
-    · rename_i h; exact ⟨rfl, rfl, rfl, rfl, rfl, rfl, rfl, rfl, rfl, id, Nat.le_of_lt h⟩
+    · rename_i h; exact ⟨rfl, rfl, rfl, rfl, rfl, rfl, rfl, rfl, rfl, id, Nat.le_of_lt h, rfl⟩
     · exact Frame.refl s
-  | park p hw hb => exact ⟨rfl, rfl, rfl, rfl, rfl, rfl, rfl, rfl, rfl, id, Nat.le_refl _⟩
-  | lose b => exact ⟨rfl, rfl, rfl, rfl, rfl, rfl, rfl, rfl, rfl, by intro h; simp [h], Nat.le_refl _⟩
-  | setSplits l l' h hs => exact ⟨rfl, rfl, rfl, rfl, rfl, rfl, rfl, rfl, rfl, id, Nat.le_refl _⟩
-  | unpark hw => exact ⟨rfl, rfl, rfl, rfl, rfl, rfl, rfl, rfl, rfl, id, Nat.le_refl _⟩
+  | park p hw hb hx => exact ⟨rfl, rfl, rfl, rfl, rfl, rfl, rfl, rfl, rfl, id, Nat.le_refl _, rfl⟩
+  | lose b => exact ⟨rfl, rfl, rfl, rfl, rfl, rfl, rfl, rfl, rfl, by intro h; simp [h], Nat.le_refl _, rfl⟩
+  | setSplits l l' h hs => exact ⟨rfl, rfl, rfl, rfl, rfl, rfl, rfl, rfl, rfl, id, Nat.le_refl _, rfl⟩
+  | unpark hw => exact ⟨rfl, rfl, rfl, rfl, rfl, rfl, rfl, rfl, rfl, id, Nat.le_refl _, rfl⟩
 
 /-- a move that takes `d` removes it from the front of the buffer and appends it to `taken` -/
 theorem move_taken {s s' : S} {d : Bytes} (hi : Inv s) (m : Move s s' d) :
@@ -404,7 +406,7 @@ theorem move_taken {s s' : S} {d : Bytes} (hi : Inv s) (m : Move s s' d) :
   cases m with
   | rnc n h => have := rnc_spec hi h n; exact ⟨this.2.2.1, this.2.1⟩
   | setChunk n => unfold setChunk; split <;> simp [rest]
-  | park p hw hb => simp [rest]
+  | park p hw hb hx => simp [rest]
   | lose b => simp [rest]
   | setSplits l l' h hs => simp [rest]
   | unpark hw => simp [rest]
@@ -505,12 +507,13 @@ structure Quiet (s s' : S) : Prop where
   eof : s'.eof = s.eof
   exc : s'.exc = s.exc
   connected : s'.connected = s.connected
+  recheck : s'.recheck = s.recheck
 
-theorem Quiet.refl (s : S) : Quiet s s := ⟨rfl, rfl, rfl, rfl, rfl, rfl, rfl, rfl, rfl⟩
+theorem Quiet.refl (s : S) : Quiet s s := ⟨rfl, rfl, rfl, rfl, rfl, rfl, rfl, rfl, rfl, rfl⟩
 theorem Quiet.trans {a b c : S} (h1 : Quiet a b) (h2 : Quiet b c) : Quiet a c :=
   ⟨h2.parked.trans h1.parked, h2.waiter.trans h1.waiter, h2.fut.trans h1.fut, h2.lost.trans h1.lost,
    h2.low.trans h1.low, h2.high.trans h1.high, h2.eof.trans h1.eof, h2.exc.trans h1.exc,
-   h2.connected.trans h1.connected⟩
+   h2.connected.trans h1.connected, h2.recheck.trans h1.recheck⟩
 
 theorem quiet_rnc (s : S) (n : Option Nat) : Quiet s (rnc s n).1 := by
   unfold rnc
@@ -518,8 +521,8 @@ theorem quiet_rnc (s : S) (n : Option Nat) : Quiet s (rnc s n).1 := by
   · exact Quiet.refl s
   · simp only [maybeResume, resumeReading]
     split
-    · split <;> exact ⟨rfl, rfl, rfl, rfl, rfl, rfl, rfl, rfl, rfl⟩
-    · exact ⟨rfl, rfl, rfl, rfl, rfl, rfl, rfl, rfl, rfl⟩
+    · split <;> exact ⟨rfl, rfl, rfl, rfl, rfl, rfl, rfl, rfl, rfl, rfl⟩
+    · exact ⟨rfl, rfl, rfl, rfl, rfl, rfl, rfl, rfl, rfl, rfl⟩
 
 theorem quiet_drainN : ∀ (k : Nat) (s : S) (acc : Bytes), Quiet s (drainN k s acc).1
   | 0, s, _ => Quiet.refl s
@@ -573,7 +576,8 @@ theorem post_raise {s : S} (hp : s.parked = none) (acc : Bytes) (e : Err) : Post
   simp [raise, outBytes, pendAcc, hp, hl.2]
 
 theorem post_park {s : S} (hp : s.parked = none) (hb : s.bufs = []) (p : Pend)
-    (hk : simpleKind p.kind = true → p.acc = []) : Post s p.acc (park s p) := by
+    (hk : simpleKind p.kind = true → p.acc = []) (hx : s.recheck = true → s.exc = none) :
+    Post s p.acc (park s p) := by
   unfold park
   split
   · exact post_raise hp _ _
@@ -581,7 +585,7 @@ theorem post_park {s : S} (hp : s.parked = none) (hb : s.bufs = []) (p : Pend)
     · exact post_raise hp _ _
     · rename_i hw
       simp at hw
-      refine ⟨⟨[], Reach.one (Move.park s p hw hb), ?_⟩, by intro h; exact absurd rfl h, by intro _; rfl, ?_⟩
+      refine ⟨⟨[], Reach.one (Move.park s p hw hb hx), ?_⟩, by intro h; exact absurd rfl h, by intro _; rfl, ?_⟩
       · intro _; simp [outBytes, pendAcc]
       · intro q hq; simp at hq; subst hq; exact hk
 
@@ -646,7 +650,7 @@ theorem pinv_move {s s' : S} {d : Bytes} (hi : Inv s) (hp : PInv s) (m : Move s 
     split
     · rename_i h; exact ⟨by show 0 < n; omega, hp.paused_nonempty⟩
     · exact hp
-  | park p hw hb => exact ⟨hp.lowpos, hp.paused_nonempty⟩
+  | park p hw hb hx => exact ⟨hp.lowpos, hp.paused_nonempty⟩
   | lose b => exact ⟨hp.lowpos, hp.paused_nonempty⟩
   | setSplits l l' h hs => exact ⟨hp.lowpos, hp.paused_nonempty⟩
   | unpark hw => exact ⟨hp.lowpos, hp.paused_nonempty⟩
@@ -655,5 +659,27 @@ theorem pinv_reach {s s' : S} {d : Bytes} (hi : Inv s) (hp : PInv s) (r : Reach 
   induction r with
   | refl => exact hp
   | step m _ ih => exact ih (move_inv hi m) (pinv_move hi hp m)
+
+/-! ### with the `_wait` re-check, nobody stays blocked once an error is recorded -/
+
+/-- (only under the behaviour flag) an exception recorded on the stream and a pending waiter
+never coexist -/
+def XInv (s : S) : Prop := s.recheck = true → s.exc ≠ none → s.waiter = false
+
+theorem xinv_move {s s' : S} {d : Bytes} (hx : XInv s) (m : Move s s' d) : XInv s' := by
+  cases m with
+  | rnc n h =>
+    have q := quiet_rnc s n
+    intro h1 h2; rw [q.waiter]; exact hx (by rw [← q.recheck]; exact h1) (by rw [← q.exc]; exact h2)
+  | setChunk n => unfold setChunk; split <;> exact hx
+  | park p hw hb hxx => intro h1 h2; exact absurd (hxx h1) h2
+  | lose b => exact hx
+  | setSplits l l' h hs => exact hx
+  | unpark hw => exact hx
+
+theorem xinv_reach {s s' : S} {d : Bytes} (hx : XInv s) (r : Reach s s' d) : XInv s' := by
+  induction r with
+  | refl => exact hx
+  | step m _ ih => exact ih (xinv_move hx m)
 
 end Aio.C08
